@@ -102,9 +102,17 @@ func newLF(tw *trace.Writer, id, lockState, desired string) *lfWorld {
 	s.MarkDeleted(simapi.Key{Group: "pkg.crossplane.io", Kind: "ProviderRevision", Name: lfRev})
 	if lockState != "nolock" {
 		l := &pkgv1beta1.Lock{ObjectMeta: metav1.ObjectMeta{Name: "lock"}}
-		l.Packages = []pkgv1beta1.LockPackage{{Name: "other-rev", Type: ptr.To(pkgv1beta1.ProviderPackageType), Source: "xpkg.example.org/org/other", Version: "v1"}}
-		if lockState == "entry" {
-			l.Packages = append(l.Packages, pkgv1beta1.LockPackage{Name: lfRev, Type: ptr.To(pkgv1beta1.ProviderPackageType), Source: "xpkg.example.org/org/prov", Version: "v1"})
+		other := pkgv1beta1.LockPackage{Name: "other-rev", Type: ptr.To(pkgv1beta1.ProviderPackageType), Source: "xpkg.example.org/org/other", Version: "v1"}
+		own := pkgv1beta1.LockPackage{Name: lfRev, Type: ptr.To(pkgv1beta1.ProviderPackageType), Source: "xpkg.example.org/org/prov", Version: "v1"}
+		switch lockState {
+		case "entry":
+			l.Packages = []pkgv1beta1.LockPackage{other, own}
+		case "entryfirst":
+			l.Packages = []pkgv1beta1.LockPackage{own, other}
+		case "entryonly":
+			l.Packages = []pkgv1beta1.LockPackage{own}
+		default:
+			l.Packages = []pkgv1beta1.LockPackage{other}
 		}
 		s.Put(l)
 	}
